@@ -155,13 +155,92 @@ def _worker(task):
     return res
 
 
+class _H(object):
+    @staticmethod
+    def s(a, b=1):
+        return a
+
+    @classmethod
+    def c(cls, a, b=1):
+        return a
+
+
+def _w_uninspectable(task):
+    """callables whose signature klepto cannot (or need not) read from Python source: builtin functions and types, partials
+    of them, static / class methods taken from the class and from its __dict__, partials of partials, lambdas.  isvalid
+    answers for all of them (for the uninspectable ones by trying the call, which is harmless here: they are pure);
+    validate() refuses uninspectable callables by design ("not a Python function") and is not judged on those.
+    Ground truth: the call itself (TypeError at these arities is always a binding failure)"""
+    from klepto import isvalid
+    P = functools.partial
+    res = {'counts': collections.Counter(), 'violations': [], 'samples': [], 'nontrivial': 0, 'outcomes': [], 'config': 'uninspectable'}
+    cases = [
+        ('partial(min, 0)', P(min, 0), [((1,), {}), ((1, 2), {})]),
+        ('partial(max, 3, key=abs)', P(max, 3, key=abs), [((1,), {}), ((-5, 2), {})]),
+        ('partial(pow, 2)', P(pow, 2), [((3,), {}), ((), {}), ((3, 5, 7), {})]),
+        ('partial(divmod, 7)', P(divmod, 7), [((2,), {}), ((), {}), ((2, 3), {})]),
+        ('partial(int, base=2)', P(int, base=2), [(('101',), {}), (('1', '0', '1'), {})]),
+        ('int', int, [(('3',), {}), ((), {}), (('3', 10), {}), ((1, 2, 3), {})]),
+        ('dict', dict, [((), {}), ((), {'a': 1}), ((1, 2), {})]),
+        ('float', float, [((), {}), (('1.5',), {}), ((1, 2), {})]),
+        ('str', str, [((), {}), ((1,), {})]),
+        ('list', list, [((), {}), (((1, 2),), {}), ((1, 2), {})]),
+        ('tuple', tuple, [((), {}), ((1, 2), {})]),
+        ('len', len, [(((1,),), {}), ((), {}), ((1, 2), {})]),
+        ('pow', pow, [((2, 3), {}), ((2,), {}), ((2, 3, 5), {})]),
+        ('divmod', divmod, [((7, 2), {}), ((7,), {})]),
+        ('min', min, [((1, 2), {}), ((), {})]),
+        ('staticmethod object', _H.__dict__['s'], [((1,), {}), ((), {}), ((1, 2, 3), {})]),
+        ('staticmethod via class', _H.s, [((1,), {}), ((), {}), ((1, 2, 3), {}), ((), {'a': 1, 'b': 2})]),
+        ('classmethod via class', _H.c, [((1,), {}), ((), {}), ((1, 2, 3), {})]),
+        ('classmethod via instance', _H().c, [((1,), {}), ((), {})]),
+        ('partial(partial(staticmethod, 1))', P(P(_H.s, 1)), [((), {}), ((2,), {}), ((2, 3), {})]),
+        ('partial(partial(staticmethod), 1, b=2)', P(P(_H.s), 1, b=2), [((), {}), ((), {'b': 3}), ((2,), {})]),
+        ('lambda a, b=2', (lambda a, b=2: a), [((1,), {}), ((), {}), ((1, 2, 3), {}), ((), {'b': 1})]),
+    ]
+    for name, c, calls in cases:
+        res['counts']['programs'] += 1
+        for a, kw in calls:
+            try:
+                c(*a, **kw)
+                want = True
+            except TypeError:
+                want = False
+            except Exception:
+                want = True
+            try:
+                got = isvalid(c, *a, **kw)
+            except BaseException as e:
+                got = 'raised %s' % type(e).__name__
+            res['counts']['evaluations'] += 1
+            res['nontrivial'] += 1
+            if want:
+                res['counts']['binding_calls'] += 1
+            if got is not want:
+                res['violations'].append(_v('C19', {'rule': 'disagrees-with-python', 'python_binds': want, 'cause': 'uninspectable-or-unusual-callable',
+                                                    'form': name.split('(')[0]},
+                                            '%s: call %r %r: Python binds=%s, isvalid=%s' % (name, a, kw, want, got),
+                                            {'form': name, 'call': [list(a), dict(kw)], 'task': 'uninspectable'}))
+        if len(res['samples']) < 1:
+            res['samples'].append({'callable': name, 'calls': [[list(a), dict(kw)] for a, kw in calls]})
+    res['counts'] = dict(res['counts'])
+    res['config_summary'] = 'builtin functions / types, partials of builtins, static and class methods'
+    return res
+
+
+def _dispatch(task):
+    if task[0] == 'uninspectable':
+        return _w_uninspectable(task)
+    return _worker(task)
+
+
 def run(tier, seed):
     rep = Report('C19', tier, seed, 'exploration',
                  'signature grammar x {function, bound method, callable instance, partials fixing 0-2 positionals x 0-1 keywords} x call forms; '
                  'oracle: the interpreter (real call of a stub); non-trivial = distinct (binds?, #positionals, keyword-name set) classes per callable',
                  assumptions=['ground truth = really calling the generated (side-effect free) function; TypeError <=> binding failed; cross-checked against inspect.signature().bind for plain functions (inspect is inexact for partials and for a keyword named like a bound first parameter)'])
     specs = spec_list(tier)
-    for res in pool.run_configs(_worker, [(tier, s) for s in specs], seed=seed):
+    for res in pool.run_configs(_dispatch, [(tier, s) for s in specs] + [('uninspectable', tier)], seed=seed):
         rep.merge(res)
     rep.extra['signatures'] = len(specs)
     return rep.finish()
